@@ -83,7 +83,8 @@ LeafExt(S) ==
            kw \in {k \in LeafKws : ~Has(S, k) /\ ~Conflicts(S, k)}}
 
 NewSubExt(S) ==
-     UNION {{With(S, kw, s0) : s0 \in InitSubs} :
+     (IF ~Has(S, "itemsT") /\ ~Conflicts(S, "itemsT") THEN {With(S, "itemsT", <<>>)} ELSE {})  \* "items": []
+  \cup UNION {{With(S, kw, s0) : s0 \in InitSubs} :
               kw \in {k \in SingleKws : ~Has(S, k) /\ ~Conflicts(S, k)}}
   \cup UNION {{With(S, kw, (IF Has(S, kw) THEN S[kw] ELSE <<>>) \o <<s0>>) : s0 \in InitSubs} :
               kw \in {k \in SeqKws : ~Conflicts(S, k)}}
